@@ -281,6 +281,17 @@ def gc_on_open(P, R, L):
     ok = bool(rof) and bool(oks) and all(o.must_pass_fs(x, through_nodes=[r.bb for r in rof]) for x in oks)
     R.check("ORD-16", "db::DB::open|gc-on-every-successful-open", ok, K.where(o),
             "every path to `Ok(db)` passes remove_obsolete_files", "gc sites at lines %s" % [r.line for r in rof])
+    # the recovery edit names the WAL that is current after recovery: everything older is garbage from then on
+    la_open = [c for c in o.calls() if c.name == K.LOG_AND_APPLY and not o.is_cleanup(c.bb)]
+    st = K.field_stores(o, "wal_file_number", adt="versioning::version_manifest::VersionChangeManifest")
+    cur = [x[0] for x in st if any("curr_wal_file_number" in org.path for op in x[2]["rv"].get("ops", []) for org in origins(o, op))]
+    for a in la_open:
+        ok = bool(cur) and o.must_pass(a.bb, through_nodes=cur)
+        R.check("ORD-16", "db::DB::open|recovery-edit-records-current-wal", ok, a.where(),
+                "the version edit written at the end of recovery carries the number of the WAL that is current after recovery "
+                "(also when the last WAL was re-used), so the replayed WALs become garbage",
+                "stores of wal_file_number: %d, from curr_wal_file_number: %d" % (len(st), len(cur)))
+    R.floor("ORD-16", "log_and_apply sites in DB::open", len(la_open), 1)
     cm = P.body(K.COMPACT_MEMTABLE)
     if cm is not None:
         R.analysed(cm)
@@ -304,6 +315,8 @@ def run(P, R, L):
     pair1(P, R, L)
     K.ord3_tables(P, R, L, rule="ORD-13")
     K.cache_eviction(P, R, L)
+    R.clause("ROLE-4", "the WAL numbers recorded in every version edit come from the version set's own counters (they decide which WALs are garbage)")
+    K.role4_counters(P, R, L)
     R.not_decided += ["directory contents for a concrete history", "crash-orphan collection beyond the guards"]
     R.assumptions += ["only the background thread and DB::open run remove_obsolete_files (single deleter)",
                       "a version handle dropped while the mutex was held continuously since acquisition is still current and is "
